@@ -1,10 +1,12 @@
 import Rink.Driver.Alloc
 import Rink.Driver.Eval
 import Rink.Driver.Sandbox
+import Rink.Driver.Digits
 
 def main (args : List String) : IO UInt32 := do
   match args with
   | ["alloc"] => Rink.Driver.Alloc.main; return 0
+  | ["digits"] => Rink.Driver.Digits.main; return 0
   | ["sandbox"] => Rink.Driver.Sandbox.main; return 0
   | ["eval", dump] => Rink.Driver.Eval.main dump; return 0
   | _ => IO.eprintln "usage: rinkmodel <alloc | eval DUMP>"; return 2
